@@ -49,6 +49,9 @@ type c15Anchors struct {
 	parentIdx, idIdx   int // argument indices of the two subject parts nodes.<parent>.<id>
 	typIdx             int // the remaining string parameter (type filter), -1 if none
 	exporter, importer *kit.Func
+	decoder            *kit.Func    // the function that calls yaml.Unmarshal (the importer or a helper of it)
+	viaCall            []*kit.Func  // functions between importer and decoder
+	doc                types.Object // the importer's local that holds the decoded document
 	marshal, unmarshal *ast.CallExpr
 	helper             *kit.Func // recursive export helper
 	helperNode         *types.Var
@@ -183,6 +186,88 @@ func c15Find(c *kit.Ctx) *c15Anchors {
 				}
 				a.importer, a.unmarshal = f, call
 			}
+		}
+	}
+	// the importer proper: the function with the preserve-ids flag that obtains
+	// the decoded document — the decoder itself or a caller of it (depth <= 2)
+	if a.importer != nil {
+		a.decoder = a.importer
+		hasBool := func(f *kit.Func) bool {
+			n := 0
+			for _, p := range f.Params() {
+				if b, ok := p.Type().Underlying().(*types.Basic); ok && b.Kind() == types.Bool {
+					n++
+				}
+			}
+			return n == 1
+		}
+		cand := []*kit.Func{a.importer}
+		for depth := 0; depth < 2 && !hasBool(a.importer); depth++ {
+			var next []*kit.Func
+			for _, f := range funcs {
+				if f.Decl == nil || f.Body == nil {
+					continue
+				}
+				for _, call := range f.AllCalls(false) {
+					for _, d := range cand {
+						if f.CalleeFunc(call) == d && f != d {
+							next = append(next, f)
+						}
+					}
+				}
+			}
+			var withBool []*kit.Func
+			for _, f := range next {
+				if hasBool(f) {
+					withBool = append(withBool, f)
+				}
+			}
+			if len(withBool) == 1 {
+				a.importer = withBool[0]
+				a.viaCall = cand
+				break
+			}
+			if len(withBool) > 1 {
+				c.Fatalf("the YAML decoder %s is used by several functions with a bool parameter", a.decoder.Name)
+			}
+			cand = next
+		}
+		// the local variable that holds the decoded document in the importer
+		f := a.importer
+		if f == a.decoder {
+			if u, ok := ast.Unparen(a.unmarshal.Args[1]).(*ast.UnaryExpr); ok && u.Op == token.AND {
+				a.doc = kit.ObjOf(f.Info(), u.X)
+			}
+		} else {
+			ast.Inspect(f.Body, func(n ast.Node) bool {
+				if _, ok := n.(*ast.FuncLit); ok {
+					return false
+				}
+				as, ok := n.(*ast.AssignStmt)
+				if !ok || len(as.Rhs) != 1 {
+					return true
+				}
+				call, ok := ast.Unparen(as.Rhs[0]).(*ast.CallExpr)
+				if !ok {
+					return true
+				}
+				cf := f.CalleeFunc(call)
+				isVia := cf == a.decoder
+				for _, d := range a.viaCall {
+					if cf == d {
+						isVia = true
+					}
+				}
+				if !isVia {
+					return true
+				}
+				for _, l := range as.Lhs {
+					if o := kit.ObjOf(f.Info(), l); o != nil && c15HasNECSlice(o.Type()) {
+						a.doc = o
+					}
+				}
+				return true
+			})
 		}
 	}
 	if a.exporter == nil || a.importer == nil {
@@ -694,6 +779,29 @@ type c15Norm struct{ from, to string }
 // c15StoreNorms returns the key normalisations `if X.Key == from { X.Key = to }`
 // found in function f.
 func c15KeyRewrites(f *kit.Func) []c15Norm {
+	var out []c15Norm
+	seen := map[*kit.Func]bool{}
+	var visit func(g *kit.Func, depth int)
+	visit = func(g *kit.Func, depth int) {
+		if g == nil || g.Body == nil || seen[g] {
+			return
+		}
+		seen[g] = true
+		out = append(out, c15KeyRewritesIn(g)...)
+		if depth >= 2 {
+			return
+		}
+		for _, call := range g.AllCalls(true) {
+			if cf := g.CalleeFunc(call); cf != nil && cf.Pkg == f.Pkg {
+				visit(cf, depth+1)
+			}
+		}
+	}
+	visit(f, 0)
+	return out
+}
+
+func c15KeyRewritesIn(f *kit.Func) []c15Norm {
 	info := f.Info()
 	var out []c15Norm
 	ast.Inspect(f.Body, func(n ast.Node) bool {
@@ -737,257 +845,7 @@ func c15R2(c *kit.Ctx, a *c15Anchors, r2 *kit.Rule) {
 		}
 		c.Note("C15/R2 reads the key normalisation of %s", w.F.Name)
 	}
-	// every function the exporter reaches that works on a *NodeEdgeChildren
-	for _, f := range a.exportSet {
-		if f.Body == nil {
-			continue
-		}
-		for _, p := range f.Params() {
-			if _, isPtr := p.Type().(*types.Pointer); isPtr && c15IsNEC(p.Type()) {
-				c15R2Func(c, r2, writers, f, p)
-			}
-		}
-	}
-}
-
-func c15R2Func(c *kit.Ctx, r2 *kit.Rule, writers map[string]*pointWriter, f *kit.Func, N *types.Var) {
-	info := f.Info()
-	isN := c15IsVar(info, N)
-
-	// the loops of the helper over N.Points / N.EdgePoints
-	type loop struct {
-		rs    *ast.RangeStmt
-		field string
-		key   types.Object
-		val   types.Object
-	}
-	var loops []*loop
-	ast.Inspect(f.Body, func(n ast.Node) bool {
-		rs, ok := n.(*ast.RangeStmt)
-		if !ok {
-			return true
-		}
-		for _, fld := range []string{"Points", "EdgePoints"} {
-			if c15Field(info, rs.X, fld, isN) {
-				l := &loop{rs: rs, field: fld}
-				if rs.Key != nil {
-					l.key = kit.ObjOf(info, rs.Key)
-				}
-				if rs.Value != nil {
-					l.val = kit.ObjOf(info, rs.Value)
-				}
-				loops = append(loops, l)
-			}
-		}
-		return true
-	})
-	// isElem: e denotes the current element of loop l: the value variable or N.<field>[key]
-	isElem := func(l *loop) func(ast.Expr) bool {
-		return func(e ast.Expr) bool {
-			e = ast.Unparen(e)
-			if l.val != nil && kit.ObjOf(info, e) == l.val {
-				return true
-			}
-			if ix, ok := e.(*ast.IndexExpr); ok && l.key != nil && kit.ObjOf(info, ix.Index) == l.key {
-				return c15Field(info, ix.X, l.field, isN)
-			}
-			return false
-		}
-	}
-	loopOf := func(n ast.Node) *loop {
-		var best *loop
-		for _, l := range loops {
-			if l.rs.Body.Pos() <= n.Pos() && n.End() <= l.rs.Body.End() {
-				if best == nil || l.rs.Pos() > best.rs.Pos() {
-					best = l
-				}
-			}
-		}
-		return best
-	}
-
-	// ---- (a) key rewrites
-	nrew := 0
-	ast.Inspect(f.Body, func(n ast.Node) bool {
-		as, ok := n.(*ast.AssignStmt)
-		if !ok || len(as.Lhs) != 1 || len(as.Rhs) != 1 {
-			return true
-		}
-		sel, ok := ast.Unparen(as.Lhs[0]).(*ast.SelectorExpr)
-		if !ok || sel.Sel.Name != "Key" || !kit.IsNamedType(info.TypeOf(sel.X), dataPkg, "Point") {
-			return true
-		}
-		nrew++
-		l := loopOf(as)
-		fld := "?"
-		if l != nil {
-			fld = l.field
-		}
-		o := r2.Ob(f, as, "key rewrite of "+fld, "the exported key is rewritten to B only when it equals A, and the store's writer maps B back to A")
-		to, isConst := kit.ConstString(info, as.Rhs[0])
-		if as.Tok != token.ASSIGN || !isConst {
-			o.Undecided("%s: the new key is not a string constant", f.Str(as))
-			return true
-		}
-		if l == nil || !isElem(l)(sel.X) || l.val == nil && l.key == nil {
-			o.Undecided("%s is not a rewrite of the current element of a loop over the node's Points / EdgePoints", f.Str(as))
-			return true
-		}
-		w := writers[l.field]
-		var back []string
-		norms := c15KeyRewrites(w.F)
-		for _, nm := range norms {
-			if nm.from == to {
-				back = append(back, nm.to)
-			}
-		}
-		if len(norms) == 0 {
-			o.Undecided("no key normalisation of the form `if p.Key == X { p.Key = Y }` found in the store's writer %s", w.F.Name)
-			return true
-		}
-		if len(back) == 0 {
-			o.Violation("the export rewrites keys of %s to %q, but the store's writer %s does not map %q to anything: the imported point keeps key %q", l.field, to, w.F.Name, to, to)
-			return true
-		}
-		if len(back) > 1 {
-			o.Undecided("%s maps %q in several ways: %v", w.F.Name, to, back)
-			return true
-		}
-		A := back[0]
-		// under "element key != A" the rewrite must be unreachable
-		st := &kit.Std{F: f}
-		elem := isElem(l)
-		st.Eval.Atom = func(e ast.Expr) (string, bool, bool) {
-			if neg, ok := eqAtom(e, func(x ast.Expr) bool { return c15Field(info, x, "Key", elem) }, constStringIs(info, A)); ok {
-				return "isA", neg, true
-			}
-			return "", false, false
-		}
-		hit := false
-		st.OnNode = func(n ast.Node, s kit.S) []kit.S {
-			if n == ast.Node(as) {
-				hit = true
-			}
-			return []kit.S{s}
-		}
-		g := c.P.Graph(f)
-		entry := c15BodyEntry(g, l.rs)
-		if entry == nil {
-			o.Undecided("loop body not found in the CFG")
-			return true
-		}
-		res := g.RunFrom(entry, 0, kit.NewS().Set("a:isA", "F"), st.Client())
-		c.AddValuations(1)
-		if res.Overflow {
-			c.Fatalf("C15/R2: state overflow in %s", f.Name)
-		}
-		if hit {
-			o.Violation("%s is reachable for an element whose key is not %q: that key is exported as %q and comes back from the import as %q", f.Str(as), A, to, A)
-			return true
-		}
-		o.OK("rewrite %q -> %q only under Key == %q; %s maps %q -> %q", A, to, A, w.F.Name, to, A)
-		return true
-	})
-	_ = nrew
-
-	// ---- (b) compaction loops: an element is dropped only when tombstone && value == 0
-	tomb := dataConst(c, "PointTypeTombstone")
-	ncomp := 0
-	for _, l := range loops {
-		if l.val == nil {
-			continue
-		}
-		elem := isElem(l)
-		isVal := func(e ast.Expr) bool { return l.val != nil && kit.ObjOf(info, e) == l.val }
-		// keep sites: N.<field>[j] = <value var>   or   X = append(X, <value var>)
-		var keeps []ast.Node
-		ast.Inspect(l.rs.Body, func(n ast.Node) bool {
-			as, ok := n.(*ast.AssignStmt)
-			if !ok || len(as.Lhs) != 1 || len(as.Rhs) != 1 {
-				return true
-			}
-			if ix, ok := ast.Unparen(as.Lhs[0]).(*ast.IndexExpr); ok && c15Field(info, ix.X, l.field, isN) && isVal(as.Rhs[0]) {
-				keeps = append(keeps, as)
-			}
-			if call, ok := ast.Unparen(as.Rhs[0]).(*ast.CallExpr); ok {
-				if bi, ok := kit.Callee(info, call).(*types.Builtin); ok && bi.Name() == "append" && len(call.Args) == 2 && isVal(call.Args[1]) {
-					keeps = append(keeps, as)
-				}
-			}
-			return true
-		})
-		if len(keeps) == 0 {
-			continue
-		}
-		ncomp++
-		o := r2.Ob(f, l.rs, "compaction of "+l.field, "an element is left out only when its type is tombstone and its value is 0 (valuations TF, FT, FF must keep it)")
-		var m c15Msgs
-		for _, val := range [][2]string{{"T", "F"}, {"F", "T"}, {"F", "F"}, {"T", "T"}} {
-			mustKeep := !(val[0] == "T" && val[1] == "T")
-			st := &kit.Std{F: f}
-			st.Eval.Atom = func(e ast.Expr) (string, bool, bool) {
-				if neg, ok := eqAtom(e, func(x ast.Expr) bool { return c15Field(info, x, "Type", elem) }, constStringIs(info, tomb)); ok {
-					return "tomb", neg, true
-				}
-				if neg, ok := eqAtom(e, func(x ast.Expr) bool { return c15Field(info, x, "Value", elem) }, func(x ast.Expr) bool {
-					tv := info.Types[x]
-					return tv.Value != nil && tv.Value.String() == "0"
-				}); ok {
-					return "zero", neg, true
-				}
-				return "", false, false
-			}
-			escaped := false
-			st.OnNode = func(n ast.Node, s kit.S) []kit.S {
-				if n.Pos() < l.rs.Pos() || n.Pos() >= l.rs.End() {
-					// the body was left without passing the loop head
-					escaped = true
-					return nil
-				}
-				for _, k := range keeps {
-					if n == k {
-						return []kit.S{s.Set("kept", "1")}
-					}
-				}
-				return []kit.S{s}
-			}
-			skipped := false
-			st.OnBranch = func(br kit.Branch, s kit.S) (t, fs []kit.S, handled bool) {
-				if br.Kind == kit.BrRange && br.Range == l.rs {
-					// back at the loop head: one pass through the body is complete
-					if s.Get("kept") != "1" {
-						skipped = true
-					}
-					return nil, nil, true
-				}
-				return nil, nil, false
-			}
-			g := c.P.Graph(f)
-			entry := c15BodyEntry(g, l.rs)
-			if entry == nil {
-				m.undec("loop body not found in the CFG")
-				break
-			}
-			res := g.RunFrom(entry, 0, kit.NewS().Set("a:tomb", val[0]).Set("a:zero", val[1]), st.Client())
-			c.AddValuations(1)
-			if res.Overflow {
-				c.Fatalf("C15/R2: state overflow in %s", f.Name)
-			}
-			for _, e := range res.Exits {
-				if e.Return != nil && st.ReturnsNil(e.Return, e.State) != "nonnil" && e.State.Get("kept") != "1" {
-					skipped = true
-				}
-			}
-			if escaped {
-				m.viol("for an element of %s with (type is tombstone: %s, value is 0: %s) the loop at %s can be left before the remaining elements are visited: they are cut off by the compaction", l.field, val[0], val[1], f.At(l.rs))
-			}
-			if skipped && mustKeep {
-				m.viol("an element of %s with (type is tombstone: %s, value is 0: %s) can pass the loop at %s without being kept: that edge point is missing from the export", l.field, val[0], val[1], f.At(l.rs))
-			}
-		}
-		m.settle(o, "elements are kept under every valuation except tombstone && value == 0")
-	}
-	_ = ncomp
+	c15Noise(c, a, r2, writers)
 }
 
 // c15BodyEntry returns the CFG block that starts the body of a range loop.
